@@ -170,8 +170,9 @@ pub open spec fn ds_offset_seq(z: Seq<F>, ds: Seq<F>, lambda: Seq<F>, w: Seq<F>,
     let q = f_div(f_sub(f_mul(lambda[0], ds[0]), l1), soc_resid(z));
     let linv = f_recip(lambda[0]);
     Seq::new(z.len(), |i: int| if i == 0 { f_mul(f_add(f_mul(z[0], q), f_mul(eta, w1)), linv) }
-        else { f_mul(f_add(f_mul(f_neg(z[i]), q), f_mul(eta, f_add(ds[i], f_mul(f_div(w1, f_add(f_one(), w[0])), w[i])))), linv) })
+        else { f_mul(f_add(f_mul(f_neg(z[i]), q), off_inc(ds, w, eta, w1, i)), linv) })
 }
+pub open spec fn off_inc(ds: Seq<F>, w: Seq<F>, eta: F, w1: F, i: int) -> F { f_mul(eta, f_add(ds[i], f_mul(f_div(w1, f_add(f_one(), w[0])), w[i]))) }
 pub open spec fn soc_wf(c: SecondOrderCone<F>) -> bool {
     c.w@.len() >= 1 && c.lambda@.len() == c.w@.len() && (c.sparse_data matches Some(sd) ==> sd.u@.len() == c.w@.len() && sd.v@.len() == c.w@.len())
 }
@@ -301,6 +302,57 @@ impl SecondOrderCone<F> {
 //@closure 1
 F
 (q_r: F) ensures q_r == f_neg(zi)
+//@before_loop 1
+        let ghost o1 = out@;
+//@loop 1
+            invariant
+                r14_n1 == o1.len() - 1, r14_lo1_0 == 1, r14_lo1_1 == 1, r14_lo1_2 == 1,
+                out@.len() == o1.len(), ds@.len() == o1.len(), self.w@.len() == o1.len(), *self == *old(self), _work@ == old(_work)@,
+                out@[0] == o1[0],
+                forall|i: int| 1 <= i < 1 + $var1 ==> #[trigger] out@[i] == f_add(o1[i], off_inc(ds@, self.w@, self.eta, w1ds1, i)),
+                forall|i: int| 1 + $var1 <= i < o1.len() ==> #[trigger] out@[i] == o1[i],
+//@end
+}
+
+pub open spec fn hs_offdiag(w: Seq<F>, row: int, col: int) -> F { f_mul(f_mul(f_lit(2.0), w[row]), w[col]) }
+// every packed position of a column c < col lies below tri(col)
+pub proof fn lemma_pk_below(col: int)
+    requires col >= 0,
+    ensures forall|r: int, c: int| 0 <= r <= c < col ==> 0 <= #[trigger] pk(r, c) < tri(col),
+{
+    assert forall|r: int, c: int| 0 <= r <= c < col implies 0 <= #[trigger] pk(r, c) < tri(col) by {
+        lemma_tri_mono(0, c); lemma_tri_mono(c + 1, col);
+    }
+}
+impl SecondOrderCone<F> {
+//@fn file=src/solver/core/cones/socone.rs in="Cone<T> for SecondOrderCone<T>" name=get_Hs rules=R1,R2,R20
+//@contract
+    requires self.dim >= 1, self.w@.len() == self.dim,
+        // call site (KKT assembly): numel entries for a cone with diagonal Hs, the packed triangle otherwise
+        self.sparse_data is Some ==> old(Hsblock)@.len() >= 1,
+        self.sparse_data is None ==> old(Hsblock)@.len() == tri(self.dim as int),
+    ensures final(Hsblock)@.len() == old(Hsblock)@.len(),
+        // sparse form: the diagonal block eta^2 diag(d, 1, .., 1) of the expansion
+        self.sparse_data matches Some(sd) ==> final(Hsblock)@[0] == f_mul(f_mul(self.eta, self.eta), sd.d)
+            && forall|i: int| 1 <= i < old(Hsblock)@.len() ==> #[trigger] final(Hsblock)@[i] == f_mul(self.eta, self.eta),
+        // dense form: eta^2 (2 w w' - J), upper triangle packed column by column
+        self.sparse_data is None ==> forall|row: int, col: int| 0 <= row <= col < self.dim ==> final(Hsblock)@[#[trigger] pk(row, col)] == hs_dense(self.w@, self.eta, row, col),
+//@pre
+        let ghost dim = self.dim as int;
+//@loop 1
+                invariant
+                    dim == self.dim, dim >= 1, self.w@.len() == dim, Hsblock@.len() == tri(dim), hidx == tri($var1 as int), two == f_lit(2.0),
+                    forall|r: int, c: int| 0 <= r <= c < $var1 ==> Hsblock@[#[trigger] pk(r, c)] == hs_raw(self.w@, r, c),
+//@loop 2
+                    invariant
+                        dim == self.dim, self.w@.len() == dim, Hsblock@.len() == tri(dim), 1 <= $var1 < dim, hidx == tri($var1 as int) + $var2, two == f_lit(2.0),
+                        wcol == self.w@[$var1 as int],
+                        forall|r: int, c: int| 0 <= r <= c < $var1 ==> Hsblock@[#[trigger] pk(r, c)] == hs_raw(self.w@, r, c),
+                        forall|r: int| 0 <= r < $var2 ==> Hsblock@[#[trigger] pk(r, $var1 as int)] == hs_offdiag(self.w@, r, $var1 as int),
+//@body_start 2
+                    proof { lemma_pk_below($var1 as int); lemma_tri_mono($var1 as int + 1, dim); assert(pk($var2 as int, $var1 as int) == hidx); }
+//@before "Hsblock[hidx - 1] += "
+                proof { lemma_pk_below($var1 as int); lemma_tri_mono($var1 as int + 1, dim); assert(pk($var1 as int, $var1 as int) == hidx - 1); }
 //@end
 }
 
